@@ -60,6 +60,33 @@ def load_constants():
     return importlib.import_module("typhon.constants")
 
 
+_MODULES = {}
+
+
+def load_repo_module(dotted, sources=None):
+    """dotted module name -> (ast, module table) of a module of the repository under test (None when it is not one)"""
+    key = (REPO, dotted)
+    if sources is not None and dotted in sources:
+        tree = ast.parse(sources[dotted])
+        normalize.annotate_literals(tree, sources[dotted])
+        return tree, normalize.module_table(tree, dotted)
+    if key not in _MODULES:
+        _MODULES[key] = None
+        rel = dotted.replace(".", "/")
+        for cand in (rel + ".py", os.path.join(rel, "__init__.py")):
+            path = os.path.join(REPO, cand)
+            if os.path.isfile(path) and dotted.split(".")[0] == "typhon":
+                try:
+                    src = open(path, encoding="utf-8").read()
+                    tree = ast.parse(src)
+                except (OSError, SyntaxError):
+                    break
+                normalize.annotate_literals(tree, src)
+                _MODULES[key] = (tree, normalize.module_table(tree, dotted))
+                break
+    return _MODULES[key]
+
+
 def prepare(fn, spec, src):
     """apply the declared glue (recognised exactly, else refusal)"""
     glue = list(spec.get("glue", ()))
@@ -107,14 +134,15 @@ def generate(package="numeric", spec_dir="specs"):
     return write_outputs(package, report, used_constants, outputs, by_key, tables)
 
 
-def translate_source(src, specs, rel="typhon/snippet.py", mod="Snippet", C=None):
-    """translate one module given as text (used by tools/py2lean/tests): returns (texts {"real","float"}, report)"""
+def translate_source(src, specs, rel="typhon/snippet.py", mod="Snippet", C=None, modules=None):
+    """translate one module given as text (used by tools/py2lean/tests): returns (texts {"real","float"}, report);
+    modules: {dotted name: text} of further modules the snippet imports helpers from"""
     report = {"refused": {}, "functions": {}, "notes": {}, "auto_helpers": {}}
-    texts = translate_module(C or load_constants(), mod, rel, src, specs, {}, report, {}, {}, {})
+    texts = translate_module(C or load_constants(), mod, rel, src, specs, {}, report, {}, {}, {}, modules=modules)
     return texts, report
 
 
-def translate_module(C, mod, rel, src, specs, known, report, used_constants, by_key, tables):
+def translate_module(C, mod, rel, src, specs, known, report, used_constants, by_key, tables, modules=None):
     """translate the functions `specs` names in the module text `src`; returns {"real": [defs], "float": [defs]}
     (None when the module does not parse) and fills report / known / by_key / tables"""
     if True:
@@ -167,7 +195,8 @@ def translate_module(C, mod, rel, src, specs, known, report, used_constants, by_
                     glue_texts = set(spec.get("glue", ()))
                     # spelling variants -> canonical subset (aliases, numpy spellings, helper expansion, early returns, …)
                     fn, helpers = normalize.prepare_function(fns[name], tree, module_name, keep=keep,
-                                                             is_glue=lambda st: ast.unparse(st) in glue_texts, table=table)
+                                                             is_glue=lambda st: ast.unparse(st) in glue_texts, table=table,
+                                                             load_module=lambda m: load_repo_module(m, modules))
                     tr.inline_failed = getattr(fn, "_inline_failed", {})
                     if helpers:
                         report["auto_helpers"][key] = [f"{h} (expanded in place)" for h in helpers]
